@@ -17,6 +17,9 @@ def ensure_icontract():
         import subprocess
         subprocess.run(["/venv/bin/pip", "install", "-q", "--no-index", "--find-links", "/opt/veriftools/wheels", "--target", os.path.join(HERE, ".deps"), "icontract"],
                        stdout=subprocess.DEVNULL, stderr=subprocess.DEVNULL, env=dict(os.environ, PIP_NO_INDEX="1"))
+        import importlib
+        importlib.invalidate_caches()  # .deps did not exist when the path entry was first looked at
+        sys.path_importer_cache.pop(os.path.join(HERE, ".deps"), None)
         try:
             import icontract  # noqa: F401
             return True
